@@ -552,3 +552,16 @@ func (f *Func) FieldPath(e ast.Expr) string {
 	}
 	return exprStr(e)
 }
+
+// encloses reports whether inner is a node of outer's subtree (by identity; source positions are
+// not used because normalised comparisons have mirrored operand positions).
+func encloses(outer, inner ast.Node) bool {
+	found := false
+	ast.Inspect(outer, func(m ast.Node) bool {
+		if m == inner {
+			found = true
+		}
+		return !found
+	})
+	return found
+}
